@@ -171,6 +171,11 @@ func Variants(tier string) []Variant {
 	}
 	// "never depends on wall-clock time": replicas whose machine clock is ten years behind / ahead of the leader's (the
 	// block times in the recorded requests are the same, of course)
+	// what a node did besides executing blocks must not matter: one replica simulates every transaction of a block (and
+	// the recorded transactions that never enter a block) before it executes the block, one is shut down and started
+	// again from its database every 37 blocks (everything held in memory is gone)
+	v = append(v, Variant{Name: "serves-simulations", Args: []string{"-simulate"}},
+		Variant{Name: "restarted-every-37-blocks", Env: []string{"GOMAXPROCS=8"}, Args: []string{"-db", "goleveldb", "-restart", "37"}})
 	v = append(v, Variant{Name: "wall-clock-ten-years-behind", Skew: true, Env: []string{"VERIF_CLOCK_SKEW_SEC=-315360000", "TZ=Asia/Kathmandu"}},
 		Variant{Name: "wall-clock-ten-years-ahead", Skew: true, Env: []string{"VERIF_CLOCK_SKEW_SEC=315360000"}, Args: []string{"-iavl", "1"}})
 	if tier == "thorough" {
@@ -225,6 +230,12 @@ func RunDetCase(spec CaseSpec, self, raceSelf, dir string) (res CaseResult) {
 	}()
 	for i := 0; i < spec.Blocks; i++ {
 		plan := g.Plan()
+		// transactions nobody puts into a block: replicas that serve simulations simulate them before this block
+		for _, ph := range g.Phantoms {
+			rec.line("sim", ph)
+			st.Count("c01.phantom-transactions-recorded")
+		}
+		g.Phantoms = nil
 		c.Rec = nil
 		br := c.NextBlockRecorded(plan, func(req *abci.RequestFinalizeBlock) {
 			bz, _ := req.Marshal()
@@ -333,23 +344,33 @@ func RunDetCase(spec CaseSpec, self, raceSelf, dir string) (res CaseResult) {
 }
 
 // Follow replays a recorded request file and prints one DIGEST line per height.
-func Follow(file string, o AppOpts, dbBackend string) error {
+func Follow(file string, o AppOpts, dbBackend string, simulate bool, restartEvery int) error {
 	f, err := os.Open(file)
 	if err != nil {
 		return err
 	}
 	defer f.Close()
+	ldbDir := ""
 	if dbBackend == "goleveldb" {
 		dir, err := os.MkdirTemp("", "vh-ldb-")
 		if err != nil {
 			return err
 		}
 		defer os.RemoveAll(dir)
+		ldbDir = dir
 		db, err := dbm.NewGoLevelDB("application", dir, nil)
 		if err != nil {
 			return err
 		}
 		o.DB = db
+	}
+	if o.Home == "" {
+		home, err := os.MkdirTemp("", "vh-home-")
+		if err != nil {
+			return err
+		}
+		defer os.RemoveAll(home)
+		o.Home = home
 	}
 	var leak *leakDB
 	if o.DB == nil {
@@ -378,10 +399,35 @@ func Follow(file string, o AppOpts, dbBackend string) error {
 			if _, err := a.InitChain(&req); err != nil {
 				return err
 			}
+		case "sim":
+			if simulate {
+				_, _, _ = a.Simulate(bz)
+			}
 		case "fin":
 			var req abci.RequestFinalizeBlock
 			if err := req.Unmarshal(bz); err != nil {
 				return err
+			}
+			if simulate {
+				for _, tx := range req.Txs {
+					func() {
+						defer func() { _ = recover() }() // the injected vote-extension transaction is not a signed transaction
+						_, _, _ = a.Simulate(tx)
+					}()
+				}
+			}
+			if restartEvery > 0 && ldbDir != "" && req.Height > 1 && req.Height%int64(restartEvery) == 0 {
+				// shut the node down and start it again from its database
+				if err := a.Close(); err != nil {
+					return fmt.Errorf("close before restart: %w", err)
+				}
+				db, err := dbm.NewGoLevelDB("application", ldbDir, nil)
+				if err != nil {
+					return err
+				}
+				o.DB = db
+				a, _ = NewApp(o, nil)
+				fmt.Printf("RESTARTED %d\n", req.Height)
 			}
 			res, err := a.FinalizeBlock(&req)
 			if err != nil {
